@@ -60,18 +60,19 @@ PROPS["C07"] = dict(
 PROPS["C18"] = dict(
     level="exploration",
     budget_s=dict(quick=120, thorough=900),
-    parts=[dict(name="units", bin="C18", flavour="plain")],
+    parts=[dict(name="units", bin="C18", flavour="plain"), dict(name="retrieval", bin="C18b", flavour="plain")],
     manifest=dict(
         engine="E2", design_ref="5 / C18",
         technique="exhaustive grid over all prefix x base-unit x power strings (pairs, triples) against 10^(power*(ea-eb)); retrieval invariance grid",
         text="Unit scaling is a pure function of two strings over a finite alphabet (21 prefixes x 31 base units x 7 powers = 4557 units). "
              "All 95k same-base pairs are checked for the exact factor, reciprocity and symmetry, all 1.9M same-base triples for "
              "composition, and cross-base / cross-power pairs for rejection (quick: prefixes {none,m,k}: 0.4M pairs; thorough: all 20M). "
-             "Complete over that alphabet.",
+             "Complete over that alphabet. Part (b): Tag, MultiTag and dataSlice requests on unit-carrying axes (rank 1-2) are re-expressed with every SI prefix and numerically "
+             "rescaled values (only where the library's own arithmetic reproduces the unscaled numbers exactly, checked per case) and must return the same region.",
         note="Factors compared with relative tolerance 1e-12 (any realistic defect is off by a factor >= 10). A missing power and an explicit ^1 "
              "are not compared with each other. The base-unit list is transcribed from the library and validated through isSIUnit."),
     evidence=dict(
-        keys=dict(evaluations=("sum", [("count", "unit_calls"), ("count", "law_checks")]),
+        keys=dict(evaluations=("sum", [("count", "unit_calls"), ("count", "law_checks"), ("count", "scaled_retrievals")]),
                   distinct_nontrivial=("distinct", "outcomes")),
         rule="units = prefix? base power? over 21 prefixes (incl. none) x 31 bases x {none,^1,^2,^3,^-1,^-2,^-3}; same-base groups: all "
              "441 ordered pairs and 9261 triples each; cross groups: every pair of units with differing base or power (quick: prefixes none/m/k); "
@@ -422,6 +423,30 @@ PROPS["C13"] = dict(
         rule="DFS with replay on a fresh file per array configuration; each prefix is a trace, not extended past a step that threw or after which something is wrong; states = distinct "
              "(configuration, descriptor list with all attributes, array label/unit/data, fresh-session flag); distinct_nontrivial = distinct (configuration, operation, input class, step class, outcome).",
         bound=dict(quick="D=3, Dc=3", thorough="D=3 with larger alphabets, Dc=4 for rank <= 2"),
+        assumptions=_E1_ASSUME,
+    ),
+)
+
+PROPS["C01"] = dict(
+    level="model_checking",
+    budget_s=dict(quick=180, thorough=1800),
+    parts=[dict(name="arrays", bin="C01", flavour="plain")],
+    manifest=dict(
+        engine="E1", design_ref="5 / C01",
+        technique="exhaustive DFS over write/append/resize/calibration/reopen sequences per (element type, rank, compression, initial extent) on the real library, replayed on fresh files, against a cell-vector reference model; every sub-hyperslab read back",
+        text="For 12 element types x rank 1-4 x {None, DeflateNormal, file-level Auto} every sequence up to depth 3 (deeper for selected types at low rank in thorough) over W_full, "
+             "W_extremes, W_cell(first/last), W_slab, Append, Grow, Shrink, SetWhole(+-1), Poly, Origin, Unset*, REOPEN is replayed on a fresh file; writes alternate between untyped "
+             "and typed (vector, T[N], multi_array, scalar) overloads and between a kept and a fresh handle. After the last step every sub-hyperslab (all while axes <= 3) is read into "
+             "sentinel-pre-filled buffers through getData, getDataDirect and typed reads and compared bitwise with the model; calibrated and cross-type reads are compared where the "
+             "expected value is exactly representable. A large-array family (3000 elements, three compressions, sparse writes around chunk boundaries, reused dirty buffers) checks that "
+             "never-written regions read as zero.",
+        note="Out-of-range cross-type conversion is don't-care; Bool/String read as numeric may throw. Strings with embedded NUL are not generated."),
+    evidence=dict(
+        keys=dict(states=("distinct", "states"), transitions=("count", "transitions"), traces_validated_against_impl=("count", "traces"),
+                  evaluations=("count", "read_calls"), distinct_nontrivial=("distinct", "outcomes")),
+        rule="DFS over all sequences of the configuration's extent-relative alphabet (8-28 letters); every prefix is a trace replayed on a fresh file; states = distinct (T, rank, "
+             "compression, initial extent, extent, written mask, calibration) model states; distinct_nontrivial = distinct (operation + write path, T, outcome) tuples.",
+        bound=dict(quick="depth 3, reduced alphabet, 50 configurations + 18 large-array cases", thorough="12 T x rank 1-4 x 3 compressions depth 3; depth 4-5 for selected types at rank <= 2"),
         assumptions=_E1_ASSUME,
     ),
 )
